@@ -18,7 +18,8 @@ FLOATS = [b"0", b"-0", b"1.5", b"nan", b"1000", b"2.25", b"-7.5"]   # texts with
 def gen_value(rng, kind, name, depth):
     if kind == "str":
         if name == b"n":
-            return ("str", str(rng.choice([0, 1, 7, 42, 65535])).encode())
+            # (the empty text is a text the file gave - not the same as a setting the file omits)
+            return ("str", rng.choice([b"0", b"1", b"7", b"42", b"65535", b"0", b"1", b"7", b"42", b""]))
         if name == b"f":
             return ("str", rng.choice(FLOATS))
         # (values that differ only in the case of a letter are different values)
@@ -255,6 +256,24 @@ def _worker(a):
                             "after %d loads the live tree differs from %s:\n%s\nfiles:\n%s\nregs: %s points %s" % (
                                 n, nm, "\n".join(diff[:6]), "\n---\n".join(wit["files"]), wit["regs"], points), wit))
                 break
+        # --- what the file says, said once, is what the setting is: an empty text is a value (not an omission)
+        occ = {}
+
+        def walk(nodes, pre):
+            for nm, node in nodes:
+                pth = (pre + "/" if pre else "") + nm.decode("latin-1").lower()
+                occ.setdefault(pth, []).append(node)
+                if node[0] == "obj":
+                    walk(node[1], pth)
+        walk(files[-1] or [], "")
+        for pth, nodes_ in occ.items():
+            if len(nodes_) == 1 and nodes_[0][0] == "str" and nodes_[0][1] == b"" and all(len(occ.get("/".join(pth.split("/")[:k]), [])) == 1 for k in range(1, pth.count("/") + 1)):
+                stats["empty_texts_judged"] = stats.get("empty_texts_judged", 0) + 1
+                got_ = final.get((pth, "str"))
+                if got_ is not None and got_[0] != '""':
+                    out.append(("value-not-as-written", "value-not-as-written:empty-text", "the last file gives %s the empty text; the setting is %s\nfiles:\n%s\nregs: %s" % (
+                        pth, got_, "\n---\n".join(wit["files"][-2:]), wit["regs"]), wit))
+                    break
         # --- nothing is left open: as many file descriptors after the history as before it
         fds = [int(o[6:]) for o in H.other if o.startswith("FDS n=")]
         if len(fds) == 2:
@@ -297,6 +316,11 @@ def _worker(a):
                 else:
                     vb, va = before.get(key), after.get(key)
                     if vb is not None and va is not None and vb != va:
+                        if key[1] == "str" and len(vb) > 1 and len(va) > 1 and vb[1] is not None and vb[1] == va[1]:
+                            # a typed setting whose TEXT changed and whose number did not ("0" -> ""): its effective value is the
+                            # number; whether the hook runs for such a change is not promised either way
+                            stats["typed_text_changes_with_equal_number"] = stats.get("typed_text_changes_with_equal_number", 0) + 1
+                            continue
                         stats["registered_value_changes"] += 1
                         if key not in hooks:
                             out.append(("hook-value", "hook-value:%s:%s" % (key[1], "to-null" if "NULL" in va[0] else ("from-null" if "NULL" in vb[0] else "value")),
